@@ -53,6 +53,12 @@ func runC03(c *an.Ctx) {
 	r091as(c, "R03.10")
 	c.Min("R03.9", 3)
 	c.Min("R03.10", 32)
+	// one event object is delivered to every subscriber: a subscriber's view converges only if nobody (another
+	// subscriber's read mask, the merge stage of a slow reader) writes that object or the values it carries (E2)
+	runE2(c, "R03.11", func(fn *ssa.Function) bool {
+		return fn.Package() != nil && strings.HasSuffix(fn.Package().Pkg.Path(), "/pkg/resource")
+	})
+	c.Min("R03.11", 10)
 	c.Min("R03.1", 2)
 	c.Min("R03.2", 3)
 	c.Min("R03.3", 3)
@@ -147,43 +153,80 @@ func r033(c *an.Ctx) {
 			continue
 		}
 		name := "(*pkg/resource." + t[0] + ")." + t[1]
-		li := w.Info[fn]
-		sends := an.CallsTo(fn, busSend)
-		if len(sends) == 0 {
+		// commit and publication are looked for where they are written: in the function, or together in a helper it
+		// delegates the locked step to; a helper that only publishes stands for a publication at its call site
+		isCommit := func(in ssa.Instruction) bool {
+			if an.IsCallTo(in, gauName) {
+				return true
+			}
+			if cl, ok := in.(*ssa.Call); ok && an.CalleeName(cl) == "builtin delete" {
+				return true
+			}
+			_, isMU := in.(*ssa.MapUpdate)
+			return isMU
+		}
+		type pair struct {
+			f      *ssa.Function
+			sends  []ssa.Instruction
+			commit []ssa.Instruction
+		}
+		var pairs []pair
+		collect := func(f *ssa.Function) (sends, commits []ssa.Instruction) {
+			an.Instrs(f, func(in ssa.Instruction) {
+				if an.IsCallTo(in, busSend) {
+					sends = append(sends, in)
+				}
+				if isCommit(in) {
+					commits = append(commits, in)
+				}
+			})
+			return
+		}
+		fs, fc := collect(fn)
+		for _, h := range an.TransparentCalleesOf(fn, 1) {
+			hs, hc := collect(h)
+			if len(hs) == 0 {
+				continue
+			}
+			if len(hc) > 0 {
+				pairs = append(pairs, pair{h, hs, hc})
+				continue
+			}
+			// publishes only: its call sites in fn are the publications
+			an.Instrs(fn, func(in ssa.Instruction) {
+				if cl, ok := in.(*ssa.Call); ok && an.TransparentCallee(cl) == h {
+					fs = append(fs, in)
+				}
+			})
+		}
+		if len(fs) > 0 {
+			pairs = append(pairs, pair{fn, fs, fc})
+		}
+		if len(pairs) == 0 {
 			c.Bad(rule, name+"|commit→publish ordered", fn.Pos(), "no Bus.Send: writes are never published")
 			continue
 		}
-		// commit: GetAndUpdate call, or a direct guarded write
-		var commits []ssa.Instruction
-		for _, cl := range an.CallsTo(fn, gauName) {
-			commits = append(commits, cl)
-		}
-		an.Instrs(fn, func(in ssa.Instruction) {
-			if cl, ok := in.(*ssa.Call); ok && an.CalleeName(cl) == "builtin delete" {
-				commits = append(commits, in)
+		for _, p := range pairs {
+			li := w.Info[p.f]
+			if len(p.commit) == 0 {
+				c.Unk(rule, name+"|commit→publish ordered", p.f.Pos(), "no commit point (GetAndUpdate / map write) found")
+				continue
 			}
-			if _, ok := in.(*ssa.MapUpdate); ok {
-				commits = append(commits, in)
-			}
-		})
-		if len(commits) == 0 {
-			c.Unk(rule, name+"|commit→publish ordered", fn.Pos(), "no commit point (GetAndUpdate / map write) found")
-			continue
-		}
-		for _, s := range sends {
-			ok := false
-			for _, cm := range commits {
-				if !an.Dominates(cm, s) {
-					continue
-				}
-				for lock := range li.At(s) {
-					if an.HeldContinuously(li, lock, an.WLock, cm, s) && li.At(cm)[lock] >= an.WLock {
-						ok = true
+			for _, s := range p.sends {
+				ok := false
+				for _, cm := range p.commit {
+					if !an.Dominates(cm, s) {
+						continue
+					}
+					for lock := range li.At(s) {
+						if an.HeldContinuously(li, lock, an.WLock, cm, s) && li.At(cm)[lock] >= an.WLock {
+							ok = true
+						}
 					}
 				}
+				c.Check(ok, rule, name+"|commit→publish ordered", s.Pos(), "an exclusive lock is held from the commit to Bus.Send",
+					"no writer-serialising lock is held between the commit and Bus.Send (lock set at Send: "+li.At(s).String()+"): writer A commits v1, writer B commits and publishes v2, then A publishes v1 - events reach subscribers in the opposite order to the commits and the folded view ends stale")
 			}
-			c.Check(ok, rule, name+"|commit→publish ordered", s.Pos(), "an exclusive lock is held from the commit to Bus.Send",
-				"no writer-serialising lock is held between the commit and Bus.Send (lock set at Send: "+li.At(s).String()+"): writer A commits v1, writer B commits and publishes v2, then A publishes v1 - events reach subscribers in the opposite order to the commits and the folded view ends stale")
 		}
 	}
 }
@@ -304,11 +347,15 @@ func r034(c *an.Ctx, rule string) {
 	if fn := mustFunc(c, rule, resPkg, "Collection", "Delete"); fn != nil {
 		name := "(*pkg/resource.Collection).Delete"
 		var del *ssa.Call
-		an.Instrs(fn, func(in ssa.Instruction) {
+		findDel := func(in ssa.Instruction) {
 			if cl, ok := in.(*ssa.Call); ok && an.CalleeName(cl) == "builtin delete" {
 				del = cl
 			}
-		})
+		}
+		an.Instrs(fn, findDel)
+		for _, h := range an.TransparentCalleesOf(fn, 2) {
+			an.Instrs(h, findDel) // the locked step may live in a helper
+		}
 		for i, vc := range an.CallsToDeep(fn, busSend) {
 			s := vc.Site
 			fields, _ := litFields(vc.Inner.Common().Args[2])
@@ -317,7 +364,7 @@ func r034(c *an.Ctx, rule string) {
 				c.Unk(rule, cons, s.Pos(), "the published event is not a composite literal / delete not found")
 				continue
 			}
-			idOK := fields["Id"] != nil && fields["Id"] == del.Call.Args[1]
+			idOK := fields["Id"] != nil && (fields["Id"] == del.Call.Args[1] || an.SameValues(fields["Id"], del.Call.Args[1]))
 			_, _, f, isBody := an.FieldOf(fields["OldValue"])
 			c.Check(idOK && isBody && f == "body", rule, cons+" carries the removed item", s.Pos(), "Id is the deleted key, OldValue the removed body",
 				"the REMOVE event does not carry the deleted key and the removed item's body")
